@@ -220,6 +220,11 @@ void run_lz4(const Plan &p) {
             if (!is_compressed(sv.first, t)) { g_forced[sv.first] = t; continue; }     // served uncompressed (rot hit plaintext or scheme bits cleared)
             size_t sz = be32(&t[4]) & 0x07FFFFFF; Bytes pl;
             if (!ref_lz4_decode(&t[8], t.size() - 8, sz, pl)) { violation("C14:accepted-what-reference-rejects", strf("face loaded although the reference LZ4 decoder fails on the served '%s' block (announced size %zu, block %zu bytes)", tagstr(sv.first).c_str(), sz, t.size() - 8)); return; }
+            if (pl.size() >= 8 && (be32(&pl[4]) >> 27) != 0) {
+                // the decoded table's own second word has scheme bits set: served as plaintext it would be taken for a compressed
+                // table, so no plaintext twin exists for it (the comparison is skipped, not judged)
+                probe("lz4:twin-unservable"); g_forced.clear(); quiescence_check("C14"); return;
+            }
             if (pl.size() >= 4 && be32(&pl[0]) != be32(&t[0])) { violation("C14:version-mismatch-accepted", "face loaded although the decompressed version word differs from the header's"); return; }
             g_forced[sv.first] = pl;
             probe("lz4:faulted-accepted-and-reference-agrees");
@@ -290,6 +295,7 @@ void run_lz4c(const Plan &p) {
         int rc;
         { API("lz4-decompress", 2000000000ull); LibGuard g; rc = lz4::decompress(in, block.size(), out, out_size); }
         Bytes ref; bool ref_ok = ref_lz4_decode(block.data(), block.size(), out_size, ref);
+        if (g_run.tracing) { std::string h = "LZ4 block:"; for (u8 b : block) h += strf(" %02x", b); h += strf(" | out_size=%zu plain=%zu rc=%d ref_ok=%d ref_len=%zu", out_size, pl.size(), rc, int(ref_ok), ref.size()); g_run.trace.push_back(h); }
         g_nontrivial = true;
         probe(mutated || delta ? "lz4c:mutated" : "lz4c:valid");
         if (!mutated && delta == 0 && block.size() < pl.size() && block.size() >= 13) {
